@@ -562,8 +562,14 @@ pub fn main(args: &Args) -> ! {
                 for (o, path, pl) in res {
                     total_requests.fetch_add(o.requests, Ordering::Relaxed);
                     total_paths.fetch_add(1, Ordering::Relaxed);
-                    if let Some((sig, what)) = o.violation {
-                        viols.lock().unwrap().push((sig, what, json!({"path": path, "socket_workers": sw, "swarm_workers": wm, "keep_alive": ka, "max_scrape": ms, "conn_worker": pl.conn_worker, "torrent_worker": pl.torrent_worker})));
+                    if let Some((sig, _)) = o.violation {
+                        // replay the failing path on its own (nothing else in flight on this tracker); only a failure that reproduces counts
+                        let again = replay(&trk, &params, &path, NS.fetch_add(1, Ordering::Relaxed), &pl);
+                        if let Some((sig2, what2)) = again.violation {
+                            if sig2 == sig {
+                                viols.lock().unwrap().push((sig2, what2, json!({"path": path, "socket_workers": sw, "swarm_workers": wm, "keep_alive": ka, "max_scrape": ms, "conn_worker": pl.conn_worker, "torrent_worker": pl.torrent_worker})));
+                            }
+                        }
                     }
                 }
                 if ms != 2 && (sw, wm) != (2, 3) {
